@@ -96,7 +96,7 @@ PROPS = {
     "C02": simple(
         rule="case = (pattern line, URL); exhaustive part: every body over a 6-symbol alphabet {a b / . * ^} up to a length bound "
              "(quick 5, thorough 7; plus an 8-symbol alphabet to length 6) x anchors {none,|p,p|,|p|,||h p,||h p|} x rule hosts x a "
-             "138-URL universe (3 schemes x 6 hosts x paths), engine per-rule matcher vs the O-pattern reference matcher; random part: "
+             "184-URL universe (3 schemes x 8 hosts x paths; two hosts extend the last label of a rule host that occurs in them only once), engine per-rule matcher vs the O-pattern reference matcher; random part: "
              "longer vocabulary patterns with rule-derived URLs; scheme patterns; /re/ rules vs the regex crate; weakening relations on "
              "all spellings (oracle-free); company: a pattern with 1-3 textual relatives (extended/shortened/edited, same anchors) in an "
              "optimised engine vs the OR of the per-rule references (reported only when every single rule agrees with its reference). "
@@ -116,8 +116,9 @@ PROPS = {
              "reference says the rule applies; distinct = hash of (line, url, source, type) (bounded sample per rule; all counted in observations). "
              "neighbours: engines (optimised 3 in 4) of 2-3 plain or /regex/ rules sharing their index token with different type/party/"
              "important/match-case options; the verdict for each rule's URL (both letter cases) must be the OR of the per-rule references. "
-             "A seventh rule kind covers `$removeparam` (implied types document/subdocument/xhr, observed through the rewrite), and every "
-             "single-rule engine is asked again after a serialization round trip.",
+             "Further rule kinds cover `$removeparam` (implied types document/subdocument/xhr, observed through the rewrite), `$csp` "
+             "(documents only, observed through the csp query) and `$redirect` (observed through matched + redirect); 8 initiators incl. one "
+             "whose host is a mere textual suffix of the request host; every single-rule engine is asked again after a serialization round trip.",
         assumptions=["an absent/unparseable initiator cannot satisfy an inclusion list and vacuously satisfies an exclusion-only list (ABP)",
                      "exceptions apply to document requests without $document (uBO-style, as documented in the code)",
                      "`|ws://` covers both websocket schemes here; the ws-vs-wss distinction is judged (and recorded) under C02"],
@@ -126,7 +127,8 @@ PROPS = {
     "C05": simple(
         rule="case = (clustered rule list L whose rules share buckets and fusion groups, 3 tag sets, 8 rule-derived requests); evaluation = "
              "verdict tuple of Engine(L, optimize=true) vs Engine(L, optimize=false) vs an unoptimised Blocker, then the same Blocker after "
-             "optimize() vs its own earlier answers; equality ignores only the debug text; non-trivial = the optimised twin contains >= 1 fused "
+             "optimize() (twice) vs its own earlier answers, then 1-3 near-twin rules added through add_filter to the optimised Blocker and to a "
+             "never-optimised twin (a rule the twin accepts as new must not be refused; answers must agree); equality ignores only the debug text; non-trivial = the optimised twin contains >= 1 fused "
              "rule (seen through the H4 walker) and O-scan reports >= 1 matching rule; distinct = hash of (L, T, url, source, type). "
              "Thorough adds the corpus engine twins over the recorded requests.",
         assumptions=["both twins are built by the same build of the crate from the same lines"],
@@ -214,7 +216,8 @@ PROPS = {
              "i32 extremes, malformed ':x' and ':' suffixes, exceptions re-using an existing modifier text or naming another resource, plus "
              "plain blocking / exception / important noise; a random resource store: names, aliases, all 11 MIME kinds + template + unknown, "
              "permissioned and missing resources, aliases colliding with other names/aliases and late duplicate names (a resource whose name or any "
-             "alias is taken is rejected whole, per add_resource's contract; the reference is given the effective store); 3 requests). evaluation = engine (redirect, matched, important, exception) vs the reference "
+             "alias is taken is rejected whole, per add_resource's contract; the reference is given the effective store); 3 requests). evaluation = engine (redirect, matched, important, exception), a live Blocker built from the same rules by add_filter, "
+             "and check_network_request_subset under the other three flag combinations (redirect must not depend on them) vs the reference "
              "(arg-max priority among non-cancelled matching candidates, set-valued on ties; data URL iff resource resolves, is redirectable "
              "and needs no permission; redirect= blocks, redirect-rule does not). non-trivial = >= 2 matching candidates or >= 1 candidate and "
              ">= 1 matching exception; distinct = hash of (rules, store, request).",
